@@ -54,6 +54,9 @@ type Exec struct {
 	curFrame          *Frame
 	lastTypeArgs      map[string]types.Type
 	tenvObj           map[*types.TypeParam]string
+	vtrees            map[string]*valueTree
+	borrow            map[types.Object]ast.Expr
+	inoutRecv         *types.Var
 }
 
 type localSig struct {
